@@ -649,6 +649,8 @@ class Nodes:
             typed_value = value
         except SyntaxError:
             typed_value = value
+        except TypeError:
+            typed_value = value
         return typed_value
 
     @staticmethod
